@@ -24,7 +24,7 @@ RULES = {
     "R4": "generators: complementary partition masks, every part returned on every path",
     "R5": "template methods split by subset_unobserved/subset_observed and recombine new.combine(observed.to_screen())",
 }
-MIN = {"R1": 14, "R2": 8, "R3": 8, "R4": 3, "R5": 6}
+MIN = {"R1": 10, "R2": 8, "R3": 8, "R4": 3, "R5": 6}
 TRUSTED = ["numpy boolean/fancy indexing keeps row order", "np.concatenate keeps operand order",
            "rng.choice(replace=False) returns distinct elements of its first argument"]
 TECHNIQUE = "def-use provenance of constructor arguments, selector pairing, guard-before-effect on the CFG"
@@ -60,15 +60,28 @@ def site_alignment(ctx, s):
     fresh_ok = FRESH_OK.get(s.f.qname, {})
     descr = set()
     problems = []
+    from engine.astutil import inline_calls
+
+    def canon_sel(txt):
+        if txt is None:
+            return None
+        try:
+            b, n = resolve_selector(ast.parse(txt, mode="eval").body, env)
+        except SyntaxError:
+            return txt
+        return ("~" if n else "") + b
     for k in common.ROW_KW:
         if k not in s.kw:
             continue
-        p = common.prov(s.kw[k], env)
+        p = common.prov(inline_calls(s.kw[k], ctx.R, s.f.mod, scope=s.f.node), env)
         if p[0] in ("sel", "whole"):
             attr = p[2]
             if attr != k:
                 problems.append(f"{k} is taken from attribute `{attr}`")
-            descr.add((p[1], p[3] if p[0] == "sel" else None))
+            root = p[1]
+            if root.isidentifier() and root in env and common.is_path(env[root]):
+                root = U(env[root])          # `parent = self.screen`
+            descr.add((root, canon_sel(p[3]) if p[0] == "sel" else None))
         elif p[0] == "concat":
             order = []
             for q in p[1]:
@@ -99,8 +112,54 @@ def r1(ctx):
     return sites
 
 
-def _is_neg_of(e, name):
-    return isinstance(e, ast.UnaryOp) and isinstance(e.op, ast.Invert) and isinstance(e.operand, ast.Name) and e.operand.id == name
+def resolve_selector(e, env):
+    """(base expression text, negated?) of a boolean row selector, following `x = ~y` / `x = y` single definitions"""
+    neg = False
+    for _ in range(8):
+        if isinstance(e, ast.UnaryOp) and isinstance(e.op, ast.Invert):
+            neg = not neg
+            e = e.operand
+        elif isinstance(e, ast.Call) and call_name(e) == "np.logical_not" and len(e.args) == 1:
+            neg = not neg
+            e = e.args[0]
+        elif isinstance(e, ast.Name) and e.id in env and (isinstance(env[e.id], (ast.Name, ast.UnaryOp)) or common.is_path(env[e.id])):
+            e = env[e.id]
+        else:
+            break
+    return U(e), neg
+
+
+def plate_iteration(f, node, S, env):
+    """if `node` sits in an iteration over the plates of screen S (for-loop or comprehension, possibly over a
+    pre-filtered list): (plate variable, loop node or None, observed plates filtered out by the iterable?)"""
+    par = enclosing_map(f.node)
+    n = node
+    while n in par:
+        n = par[n]
+        gens = []
+        if isinstance(n, ast.For):
+            gens = [(n.target, n.iter, [], n)]
+        elif isinstance(n, (ast.ListComp, ast.GeneratorExp, ast.SetComp)):
+            gens = [(g.target, g.iter, g.ifs, None) for g in n.generators]
+        for tgt, it, ifs, loop in gens:
+            if not isinstance(tgt, ast.Name):
+                continue
+            pv = tgt.id
+            filt = list(ifs)
+            src = it
+            if isinstance(src, ast.Name) and src.id in env:
+                d = env[src.id]
+                if isinstance(d, (ast.ListComp, ast.GeneratorExp)) and len(d.generators) == 1 and U(d.elt) == U(d.generators[0].target):
+                    inner_v = U(d.generators[0].target)
+                    filt += [ast.parse(U(c).replace(f"{inner_v}.", f"{pv}."), mode="eval").body for c in d.generators[0].ifs]
+                    src = d.generators[0].iter
+                elif isinstance(d, ast.Call) and call_name(d) in ("list", "sorted", "tuple") and d.args:
+                    src = d.args[0]
+            if U(src) == f"{S}.plates":
+                N = Norm(strict=False)
+                skip = any(N.b(c) == N.b(ast.parse(f"not {pv}.is_observed", mode="eval").body) for c in filt)
+                return pv, loop, skip
+    return None, None, False
 
 
 def r2_holdout(ctx, fq, plate_balanced):
@@ -110,123 +169,141 @@ def r2_holdout(ctx, fq, plate_balanced):
         def __init__(self, kw, site):
             self.kw, self.site = kw, site
     sites = [_S(kw, label) for kw, label in common.screen_constructions(ctx, f)]
-    if len(sites) != 2:
-        # both halves may be built by one delegate: `return helper(screen, mask)` whose body builds the two screens
-        from engine.astutil import resolve_helper, bind_args
-        rets = returns(f.node)
-        if len(rets) == 1 and isinstance(rets[0].value, ast.Call):
-            h, skip = resolve_helper(ctx.R, f, rets[0].value)
-            if h is not None:
-                raise AnalysisError(f"{f.site()}: the two halves are built inside {h.site()} (a helper with its own parameters); the partition rule is undecided")
     ctx.need(len(sites) == 2, f"{f.site()}: expected two Screen(...) constructions, found {len(sites)}")
-    env = {k: v for k, v in single_defs(f.node).items()}
-    screen_param = f.params[0]
-    sels = []
+    env = single_defs(f.node)
+    S = f.params[0]
+    N = Norm(strict=False)
+    sel = []
     for s in sites:
-        p = common.prov(s.kw["treatment_names"], env)
-        ctx.need(p[0] == "sel", f"{s.site}: treatment_names is not a row selection")
-        sels.append(ast.parse(p[3], mode="eval").body)
-    env = {}
-    # identify the selection vector V: one site uses V, the other ~V
-    vname = None
-    for e in sels:
-        if isinstance(e, ast.Name):
-            vname = e.id
-    pair_ok = vname is not None and sorted([isinstance(e, ast.Name) and e.id == vname for e in sels]) == [False, True] \
-        and any(_is_neg_of(e, vname) for e in sels)
-    ctx.check("R2", f"{f.site()}::partition", pair_ok, f"halves use `{vname}` and `~{vname}` of one vector",
-              f"the two halves are not selected by a vector and its complement: {[U(e) for e in sels]}")
+        p = common.prov(s.kw["treatment_names"], {})
+        ctx.need(p[0] == "sel" and p[1] == S, f"{s.site}: treatment_names is not a row selection of `{S}`")
+        sel.append(resolve_selector(ast.parse(p[3], mode="eval").body, env))
+    pair_ok = sel[0][0] == sel[1][0] and {sel[0][1], sel[1][1]} == {True, False} and sel[0][0].isidentifier()
+    ctx.check("R2", f"{f.site()}::partition", pair_ok, f"halves use `{sel[0][0]}` and its complement",
+              f"the two halves are not selected by a vector and its complement: {[('~' if n else '') + b for b, n in sel]}")
     if not pair_ok:
         return
-    hold = [s for s, e in zip(sites, sels) if isinstance(e, ast.Name)][0]
-    train = [s for s, e in zip(sites, sels) if not isinstance(e, ast.Name)][0]
+    V = sel[0][0]
+    hold = sites[0] if not sel[0][1] else sites[1]
+    train = sites[1] if hold is sites[0] else sites[0]
     # masks
     hm = hold.kw.get("observation_mask")
+    hm_i = inline(hm, env) if hm is not None else None
     hm_ok = False
-    if hm is not None and isinstance(hm, ast.Call) and call_name(hm) == "np.ones" and hm.args:
-        n = hm.args[0]
-        txt = U(n).replace(" ", "")
-        hm_ok = txt in (f"np.count_nonzero({vname})", f"{vname}.sum()", f"int({vname}.sum())", f"np.sum({vname})",
-                        f"int(np.sum({vname}))", f"np.count_nonzero({vname}),", f"({vname}.sum(),)",
-                        f"(np.count_nonzero({vname}),)")
-        dt = kwargs(hm).get("dtype")
+    if isinstance(hm_i, ast.Call) and call_name(hm_i) == "np.ones" and hm_i.args:
+        n_e = hm_i.args[0]
+        if isinstance(n_e, ast.Tuple) and len(n_e.elts) == 1:
+            n_e = n_e.elts[0]
+        txt = U(n_e).replace(" ", "")
+        hm_ok = txt in (f"np.count_nonzero({V})", f"{V}.sum()", f"int({V}.sum())", f"np.sum({V})", f"int(np.sum({V}))", f"int(np.count_nonzero({V}))")
+        dt = kwargs(hm_i).get("dtype")
         hm_ok = hm_ok and dt is not None and U(dt) in ("bool", "np.bool_")
     ctx.check("R2", f"{f.site()}::holdout-mask", hm_ok, "hold-out mask is all-true of the hold-out length",
-              f"hold-out observation_mask is `{U(hm)}`, not np.ones(count_nonzero({vname}), dtype=bool)")
-    tm = common.prov(train.kw.get("observation_mask"), env) if "observation_mask" in train.kw else None
-    ctx.check("R2", f"{f.site()}::training-mask", tm is not None and tm[0] == "sel" and tm[1] == screen_param
-              and tm[2] == "observation_mask" and tm[3] == f"~{vname}",
-              "training mask is the input mask at the kept rows",
-              f"training observation_mask is {tm}, not {screen_param}.observation_mask[~{vname}]")
-    # V initialisation and writes
-    inits = [n for n in walk_own(f.node) if isinstance(n, ast.Assign) and any(isinstance(t, ast.Name) and t.id == vname for t in n.targets)]
+              f"hold-out observation_mask is `{U(hm_i) if hm_i is not None else None}`, not np.ones(count_nonzero({V}), dtype=bool)")
+    tm = train.kw.get("observation_mask")
+    tm_ok = False
+    if tm is not None:
+        pm = common.prov(tm, {k: v for k, v in env.items() if k != V})
+        if pm[0] == "sel" and pm[1] == S and pm[2] == "observation_mask":
+            tm_ok = resolve_selector(ast.parse(pm[3], mode="eval").body, env) == (V, True)
+    ctx.check("R2", f"{f.site()}::training-mask", tm_ok, "training mask is the input mask at the kept rows",
+              f"training observation_mask is `{U(tm) if tm is not None else None}`, not {S}.observation_mask[~{V}]")
+    inits = [n for n in walk_own(f.node) if isinstance(n, ast.Assign) and any(isinstance(t, ast.Name) and t.id == V for t in n.targets)]
     init_ok = len(inits) == 1 and isinstance(inits[0].value, ast.Call) and call_name(inits[0].value) == "np.zeros" \
-        and U(inits[0].value.args[0]) in (f"{screen_param}.size", f"({screen_param}.size,)") \
-        and U(kwargs(inits[0].value).get("dtype")) in ("bool", "np.bool_")
-    ctx.check("R2", f"{f.site()}::sel-init", init_ok, f"`{vname}` starts all-false with one entry per input row",
-              f"`{vname}` is not initialised as np.zeros({screen_param}.size, dtype=bool)")
+        and U(inits[0].value.args[0]) in (f"{S}.size", f"({S}.size,)", f"len({S}.observations)") and U(kwargs(inits[0].value).get("dtype")) in ("bool", "np.bool_")
+    ctx.check("R2", f"{f.site()}::sel-init", init_ok, f"`{V}` starts all-false with one entry per input row",
+              f"`{V}` is not initialised as np.zeros({S}.size, dtype=bool)")
     writes = [n for n in walk_own(f.node) if isinstance(n, (ast.Assign, ast.AugAssign))
-              and any(isinstance(t, ast.Subscript) and isinstance(t.value, ast.Name) and t.value.id == vname
+              and any(isinstance(t, ast.Subscript) and isinstance(t.value, ast.Name) and t.value.id == V
                       for t in (n.targets if isinstance(n, ast.Assign) else [n.target]))]
-    ctx.need(len(writes) >= 1, f"{f.site()}: no write into `{vname}` found")
+    ctx.need(len(writes) >= 1, f"{f.site()}: no write into `{V}` found")
     g = CFG(f.node)
+    par = enclosing_map(f.node)
     for w in writes:
         tgt = (w.targets[0] if isinstance(w, ast.Assign) else w.target)
-        idx = tgt.slice
-        val = w.value
-        wnode = g.nodes_of(w)[0]
-        good_val = isinstance(val, ast.Constant) and val.value is True and isinstance(w, ast.Assign)
-        # index must come from rng.choice(<rows>, <n>, replace=False)
-        src = idx
-        if isinstance(idx, ast.Name):
-            defs = [d for d in g.defs_reaching(wnode, idx.id)]
-            ctx.need(len(defs) == 1 and isinstance(defs[0].stmt, ast.Assign), f"{f.site()}: index `{idx.id}` has no unique definition")
-            src = defs[0].stmt.value
-        ok_choice = isinstance(src, ast.Call) and attr_tail(src) == "choice" and isinstance(src.func, ast.Attribute) \
-            and U(src.func.value) == "rng"
-        detail = ""
-        if ok_choice:
-            pop = arg(src, 0, "a")
-            size = arg(src, 1, "size")
-            rep = arg(src, 2, "replace")
-            if not (rep is not None and isinstance(rep, ast.Constant) and rep.value is False):
-                ok_choice = False
-                detail = "drawn with replacement (replace is not False): the hold-out can be smaller than ceil(size*fraction)"
-            elif plate_balanced:
-                # population: that plate's rows ; size: ceil(plate.size * fraction)
-                loop = enclosing_loop(f.node, w)
-                ctx.need(loop is not None and isinstance(loop, ast.For) and isinstance(loop.target, ast.Name),
-                         f"{f.site()}: the write into `{vname}` is not inside a per-plate loop")
-                pv = loop.target.id
-                it_ok = U(loop.iter) == f"{screen_param}.plates"
-                lenv = single_defs_in(loop)
-                pop_e = inline(pop, lenv)
-                size_e = inline(size, lenv)
-                Nn = Norm(strict=False)
-                pop_ok = Nn.key(pop_e) == Nn.key(ast.parse(f"np.arange({screen_param}.size)[{pv}.selection_vector]", mode="eval").body)
-                size_ok = U(size_e).replace(" ", "") in (f"math.ceil({pv}.size*fraction)", f"math.ceil(fraction*{pv}.size)",
-                                                         f"int(math.ceil({pv}.size*fraction))", f"int(np.ceil({pv}.size*fraction))")
-                if not (it_ok and pop_ok and size_ok):
-                    ok_choice = False
-                    detail = (f"population `{U(pop_e)}` / size `{U(size_e)}` / loop over `{U(loop.iter)}` is not "
-                              f"(rows of the plate, ceil(plate.size*fraction)) for every plate of the input")
-                # guard: observed plates skipped before the write
-                guard_ok = observed_skip_dominates(g, loop, pv, wnode)
-                ctx.check("R2", f"{f.site()}::observed-plates-skipped", guard_ok,
-                          "the write is unreachable for observed plates (continue under `plate.is_observed`)",
-                          "rows of an observed plate can be drawn into the hold-out: no `if plate.is_observed: continue` "
-                          "dominates the write")
+        good_val = isinstance(w, ast.Assign) and isinstance(w.value, ast.Constant) and w.value.value is True
+        # trace the index to the rng.choice call(s) that produce it
+        sources = index_sources(f, g, w, tgt.slice, env)
+        if sources is None:
+            raise AnalysisError(f"{f.site()}: cannot trace where the indices written into `{V}` (`{U(tgt.slice)}`) come from")
+        for src in sources:
+            ok_choice = isinstance(src, ast.Call) and attr_tail(src) == "choice" and isinstance(src.func, ast.Attribute) and U(src.func.value) == "rng"
+            detail = ""
+            if not ok_choice:
+                detail = f"index `{U(src)[:80]}` is not drawn by rng.choice"
             else:
-                pop_ok = U(pop).replace(" ", "") == f"np.arange({screen_param}.size)"
-                size_ok = U(size).replace(" ", "") in (f"math.ceil({screen_param}.size*fraction)", f"math.ceil(fraction*{screen_param}.size)")
-                if not (pop_ok and size_ok):
+                pop, size, rep = arg(src, 0, "a"), arg(src, 1, "size"), arg(src, 2, "replace")
+                if not (rep is not None and isinstance(rep, ast.Constant) and rep.value is False):
                     ok_choice = False
-                    detail = f"population `{U(pop)}` / size `{U(size)}` is not (all rows, ceil(size*fraction))"
+                    detail = "drawn with replacement (replace is not False): the hold-out can be smaller than ceil(size*fraction)"
+                elif plate_balanced:
+                    pv, loop, filtered = plate_iteration(f, src, S, env)
+                    if pv is None:
+                        raise AnalysisError(f"{f.site()}: the draw `{U(src)[:60]}` is not inside an iteration over `{S}.plates`")
+                    lenv = {}
+                    scope = loop if loop is not None else f.node
+                    for n in walk_own(scope):
+                        if isinstance(n, ast.Assign) and len(n.targets) == 1 and isinstance(n.targets[0], ast.Name):
+                            lenv.setdefault(n.targets[0].id, n.value)
+                    lenv = {**{k: v for k, v in env.items()}, **lenv}
+                    pop_e = inline(pop, {k: v for k, v in lenv.items() if k != V})
+                    size_e = inline(size, {k: v for k, v in lenv.items() if k != V})
+                    pop_ok = N.key(pop_e) == N.key(ast.parse(f"np.arange({S}.size)[{pv}.selection_vector]", mode="eval").body)
+                    size_ok = N.key(size_e) in (N.key(ast.parse(f"math.ceil({pv}.size * fraction)", mode="eval").body),
+                                                N.key(ast.parse(f"int(math.ceil({pv}.size * fraction))", mode="eval").body),
+                                                N.key(ast.parse(f"int(np.ceil({pv}.size * fraction))", mode="eval").body))
+                    if not (pop_ok and size_ok):
+                        ok_choice = False
+                        detail = (f"population `{U(pop_e)[:70]}` / size `{U(size_e)[:60]}` is not (rows of the plate, ceil(plate.size*fraction)) "
+                                  f"for every unobserved plate of the input")
+                    guard_ok = filtered
+                    if not guard_ok and loop is not None:
+                        cn = g.node_containing(src)
+                        guard_ok = cn is not None and observed_skip_dominates(g, loop, pv, cn)
+                    ctx.check("R2", f"{f.site()}::observed-plates-skipped", guard_ok,
+                              "no draw happens for observed plates (skipped by `continue` or filtered out of the iteration)",
+                              "rows of an observed plate can be drawn into the hold-out: neither `if plate.is_observed: continue` dominates the draw nor are observed plates filtered out")
+                else:
+                    pop_e, size_e = inline(pop, env), inline(size, env)
+                    pop_ok = N.key(pop_e) in (N.key(ast.parse(f"np.arange({S}.size)", mode="eval").body), N.key(ast.parse(f"{S}.size", mode="eval").body))
+                    size_ok = N.key(size_e) == N.key(ast.parse(f"math.ceil({S}.size * fraction)", mode="eval").body)
+                    if not (pop_ok and size_ok):
+                        ok_choice = False
+                        detail = f"population `{U(pop_e)}` / size `{U(size_e)}` is not (all rows, ceil(size*fraction))"
+            ctx.check("R2", f"{f.site()}::sel-write", ok_choice and good_val,
+                      "sel is set True only at indices drawn without replacement from the documented population",
+                      detail or f"value written is `{U(w.value)}`")
+
+
+def index_sources(f, g, w, idx, env):
+    """expressions that produce the index used in the store `w` : follows locals, and a list that is filled by
+    `.append(x)` elsewhere and iterated (`for chunk in chunks: sel[chunk] = True`)"""
+    par = enclosing_map(f.node)
+    if not isinstance(idx, ast.Name):
+        return [idx]
+    wnode = g.nodes_of(w)[0]
+    defs = g.defs_reaching(wnode, idx.id)
+    out = []
+    for d in defs:
+        st = d.stmt
+        if isinstance(st, ast.Assign):
+            out.append(st.value)
+        elif isinstance(st, ast.For):
+            it = st.iter
+            if isinstance(it, ast.Name):
+                apps = [c for c in calls(f.node, tail="append") if U(c.func.value) == it.id]
+                lcs = [n.value for n in walk_own(f.node) if isinstance(n, ast.Assign) and U(n.targets[0]) == it.id and isinstance(n.value, ast.ListComp)]
+                if apps:
+                    out += [c.args[0] for c in apps]
+                elif lcs:
+                    out += [lc.elt for lc in lcs]
+                else:
+                    return None
+            else:
+                return None
         else:
-            detail = f"index `{U(src)[:80]}` is not drawn by rng.choice"
-        ctx.check("R2", f"{f.site()}::sel-write", ok_choice and good_val,
-                  "sel is set True only at indices drawn without replacement from the documented population",
-                  detail or f"value written is `{U(val)}`")
+            return None
+    return out or None
 
 
 def enclosing_loop(fn, node):
@@ -319,6 +396,13 @@ def r3(ctx):
                   f"smoother can return rows that are not a sub-collection of its input: {bad}")
     # who-may-write: Plate.merge
     m = ctx.fn("data.Plate.merge")
+    menv = {k: v for k, v in single_defs(m.node).items() if common.is_path(v)}
+
+    def unalias(txt):
+        head, _, tail = txt.partition(".")
+        if head in menv:
+            return U(menv[head]) + ("." + tail if tail else "")
+        return txt
     stores = []
     for n in walk_own(m.node):
         tg = []
@@ -332,6 +416,7 @@ def r3(ctx):
                 stores.append(U(t.value))
             elif isinstance(t, ast.Attribute):
                 stores.append(U(t))
+    stores = [unalias(x) for x in stores]
     allowed = {"self.selection_vector", "self.screen.plate_names", "self.screen._plate_ids"}
     extra = sorted(set(stores) - allowed)
     ctx.check("R3", f"{m.site()}::writes", not extra and stores,
